@@ -54,7 +54,7 @@ FUNCS = ['legendre', 'chebyshev', 'poly', 'chebyshev_split']
 FTERM = {'legendre': 'Legendre', 'chebyshev': 'Chebyshev', 'poly': 'Poly', 'chebyshev_split': 'ChebSplit'}
 
 MAX_TERM = 120000
-COQ_TIMEOUT = 150
+COQ_TIMEOUT = 900     # generous: a wall-clock limit must not turn a slow machine into an alarm
 
 HEADER = '''From Coq Require Import QArith ZArith List. Import ListNotations.
 From PV Require Import Lib.WLS C13.LinAlg C13.Model. Open Scope Q_scope.'''
